@@ -57,7 +57,7 @@ class Factor:
         return f
 
     def __call__(self, b):
-        return scipy.linalg.cho_solve(self._c, onp.asarray(b, dtype=float))
+        return scipy.linalg.cho_solve(self._c, onp.asarray(b, dtype=float), check_finite=False)  # NaN in -> NaN out, like cholmod
 
     solve_A = __call__
 
